@@ -369,6 +369,8 @@ fn finish<C: Collect + Send + Sync + 'static>(c: C, wrap: &str, metas: &[&'stati
         "box" => Dispatch::new(Box::new(c) as Box<dyn Collect + Send + Sync>),
         "arc" => Dispatch::new(Arc::new(c) as Arc<dyn Collect + Send + Sync>),
         "boxbox" => Dispatch::new(Box::new(Box::new(c) as Box<dyn Collect + Send + Sync>)),
+        // a collector that lives for the whole process, installed through the other constructor
+        "static" => Dispatch::from_static(Box::leak(Box::new(c))),
         _ => Dispatch::new(c),
     };
     (d, json!({"hint": hint, "cs": cs}))
@@ -414,6 +416,9 @@ fn child() {
     // the metadata universe for the stack summary: collected from the real callsites by a throw-away collector
     let metas: Vec<&'static Metadata<'static>> = collect_metas();
     set_flags(&json!([]));
+    // a bystander: another collector that is alive (created earlier, so asked first) while the stack is built and used; it
+    // accepts nothing, says so in its hint, and answers `sometimes` for every callsite
+    let _bystander = if beh["bystander"].as_bool().unwrap_or(false) { Some(Dispatch::new(Bystander)) } else { None };
     let (d, summary) = match vh_common::catch(|| build_stack(&elems, &env, &wrap, &metas)) {
         Ok(x) => x,
         Err(e) => {
@@ -422,7 +427,14 @@ fn child() {
         }
     };
     let reg_calls = drain(&log);
-    runner::child_emit(json!({"ev": "op", "op": "build", "t": 1, "summary": summary,
+    // creating the Dispatch re-registers every known callsite with the new collector (after on_register_dispatch): those passes
+    let last_rd = reg_calls.iter().filter(|c| c["cb"] == "register_dispatch").map(|c| c["seq"].as_u64().unwrap_or(0)).max();
+    let build_regs: Vec<Value> = reg_calls
+        .iter()
+        .filter(|c| c["cb"] == "register_callsite" && last_rd.map(|x| c["seq"].as_u64().unwrap_or(0) > x).unwrap_or(false))
+        .map(|c| json!({"cb": c["cb"], "m": c["m"], "L": c["L"]}))
+        .collect();
+    runner::child_emit(json!({"ev": "op", "op": "build", "t": 1, "summary": summary, "regs": build_regs, "log_reg": env.log_reg, "bystander": beh["bystander"].as_bool().unwrap_or(false),
         "obs": reg_calls.iter().filter(|c| c["cb"] == "register_dispatch").cloned().collect::<Vec<_>>()}));
     let spans: Arc<Mutex<HashMap<u64, Span>>> = Arc::new(Mutex::new(HashMap::new()));
     let mut ws: Workers<Ctx> = Workers::new(|| Ctx { default: None, entered: vec![] });
@@ -609,6 +621,30 @@ fn child() {
         runner::child_emit(o);
     }
     std::process::exit(0);
+}
+
+struct Bystander;
+impl Collect for Bystander {
+    fn register_callsite(&self, _: &'static Metadata<'static>) -> Interest {
+        Interest::sometimes()
+    }
+    fn enabled(&self, _: &Metadata<'_>) -> bool {
+        false
+    }
+    fn max_level_hint(&self) -> Option<LevelFilter> {
+        Some(LevelFilter::OFF)
+    }
+    fn new_span(&self, _: &span::Attributes<'_>) -> span::Id {
+        span::Id::from_u64(1)
+    }
+    fn record(&self, _: &span::Id, _: &span::Record<'_>) {}
+    fn record_follows_from(&self, _: &span::Id, _: &span::Id) {}
+    fn event(&self, _: &Event<'_>) {}
+    fn enter(&self, _: &span::Id) {}
+    fn exit(&self, _: &span::Id) {}
+    fn current_span(&self) -> span::Current {
+        span::Current::none()
+    }
 }
 
 /// every metadata of the callsite pool, obtained by letting a collector see all registrations
